@@ -412,13 +412,21 @@ def run_c07(rep, tier):
     # sequences: the mode is detected once for the whole message (also for messages longer than any single symbol)
     from . import props_seq
     seq_calls = []
-    for kind_fn, n in ((gen.kanji, 1900), (gen.kanji, 700), (gen.digits, 7200), (gen.alnum, 4400), (gen.latin1, 3000), (gen.kanji, 12), (gen.digits, 30)):
+    for kind_fn, n in ((gen.kanji, 1900), (gen.kanji, 700), (gen.digits, 7200), (gen.alnum, 4400), (gen.latin1, 3000), (gen.kanji, 12), (gen.digits, 30),
+                       (gen.kanji, 3), (gen.kanji, 5), (gen.kanji, 7), (gen.kanji, 17), (gen.alnum, 7), (gen.digits, 5)):
         content = kind_fn(r, n)
         seq_calls.append(call('make_sequence', content, symbol_count=4 if n > 100 else 2))
+        if n < 20:
+            seq_calls.append(call('make_sequence', content, symbol_count=3))
+            seq_calls.append(call('make_sequence', content * 3, version=1))
         if n > 1000:
             seq_calls.append(call('make_sequence', content, version=20 if n < 5000 else 30))
     with __import__('multiprocessing').get_context('fork').Pool(min(8, common.NCPU)) as pool:
         sobs = pool.map(props_seq.seq_observation, seq_calls, chunksize=1)
+    for o in sobs:       # every one of these requests is valid: a refusal means the first applicable mode was not usable for the sequence
+        if o['outcome']['status'] != 'ok':
+            rep.violation({'kind': 'seq', 'module': 'props_seq', 'call': o['_call'], 'failing_clauses': ['sequence_mode_first_applicable'], 'observed': o['outcome']},
+                          f"{engine.brief_call(o['_call'])} was refused: {o['outcome'].get('exc')}: {o['outcome'].get('msg', '')[:80]}")
     sobs = [o for o in sobs if o['outcome']['status'] == 'ok']
     sv, st = common.validate_observations(rep.pid, 'Trace_Seq', sobs, tag='seqmode', timeout=3000)
     rep.add_trace_stats(st, len(sobs))
